@@ -20,6 +20,7 @@ EXPLANATION = (
     'every category of cat_dict.en occurs in targets.en (compared on the parsed value).  numpy fancy-indexing semantics '
     'are trusted; config loading through allennlp Params is not analysed beyond the keys it pops.'
     ' Category strings of the data files must denote the same category however they are spaced: the tokenise rule of C05 is a clause here.'
+    ' Third round: the mask builder is found by role; scores are assigned, never accumulated.'
 )
 TRUSTED = ['CPython ast', 'numpy boolean-mask assignment semantics', 'independent jsonnet-subset and category readers (sa/datafiles.py)']
 
@@ -28,9 +29,24 @@ REL = 'depccg/parsing.py'
 
 def r_polarity(repo, rep, R='R17.1'):
     mod = repo.module(REL)
-    b = mod.get('_binarize')
+    b = mod.get('_binarize', required=False)
+    if b is None:
+        # by role: the module-level function that builds the per-word value of the dictionary comprehension
+        f_ = mod.get('apply_category_filters')
+        cands = []
+        for n_ in ast.walk(f_):
+            if isinstance(n_, ast.DictComp) and isinstance(n_.value, ast.Call) and isinstance(n_.value.func, ast.Name):
+                d_ = mod.get(n_.value.func.id, required=False)
+                if d_ is not None and d_ not in cands:
+                    cands.append(d_)
+        if len(cands) != 1:
+            raise AnalysisError('%s: the function building the per-word category mask was not found' % REL)
+        b = cands[0]
+    MASK = b.name
+    if len(b.args.args) < 2:
+        raise AnalysisError('%s: %s has %d parameters' % (REL, b.name, len(b.args.args)))
     idx, ln = [a.arg for a in b.args.args][:2]
-    w = '%s:%s _binarize' % (REL, b.lineno)
+    w = '%s:%s %s' % (REL, b.lineno, b.name)
     paths = SymExec(b).run()
     ok = len(paths) == 1
     listed_value = init_value = None
@@ -65,6 +81,14 @@ def r_polarity(repo, rep, R='R17.1'):
     uniq = {}
     for st, e in stores:
         uniq.setdefault(id(e[-1]), (st, e))
+    augs = {}
+    for st, o in SymExec(f, unroll=1).run():
+        for e in st.events:
+            if e[0] == 'aug':
+                augs.setdefault(id(e[-1]), e)
+    rep.check(not augs, 'R17.2', wf, 'filters:assigned-not-accumulated', 'scores are set, never accumulated',
+              'scores are changed in place by an augmented assignment (%s): the result depends on the value that was there (-inf, nan and very large '
+              'scores survive; applying the filter twice gives another value) instead of being the large negative value' % [src(e[-1])[:50] for e in augs.values()])
     rep.check(len(uniq) == 1, 'R17.2', wf, 'filters:single-store', 'apply_category_filters has exactly one store', 'it has %d stores: %s' % (len(uniq), [src(e[-1])[:50] for _, e in uniq.values()]))
     for st, e in uniq.values():
         obj, idx_t, val = e[1], e[2], e[3]
@@ -72,7 +96,7 @@ def r_polarity(repo, rep, R='R17.1'):
         col = idx_t[1][1] if idx_t[0] == 'tuple' and len(idx_t[1]) == 2 else None
         if negated:
             col = col[2]
-        is_mask = col is not None and col[0] == 'sub' and col[1][0] == 'dictcomp' and col[1][2][0] == 'call' and col[1][2][1] == N('_binarize')
+        is_mask = col is not None and col[0] == 'sub' and col[1][0] == 'dictcomp' and col[1][2][0] == 'call' and col[1][2][1] in (N('_binarize'), N(MASK))
         flattened_unlisted = is_mask and (mask_true_means_unlisted != negated)
         rep.check(flattened_unlisted and val == N('large_negative_value'), R, wf, 'filters:polarity',
                   'the cells set to large_negative_value are those of the categories NOT listed for the word',
@@ -120,7 +144,7 @@ def r_polarity(repo, rep, R='R17.1'):
               'also modifies %s' % [src(n)[:50] for n, _, _ in muts])
 
 
-def r_data(repo, rep, R='R17.3'):
+def r_data(repo, rep, R='R17.3', only_well_formed=False):
     n = 0
     files = {}
     for cfg in ('config_en', 'config_ja', 'config_rebank'):
@@ -160,6 +184,8 @@ def r_data(repo, rep, R='R17.3'):
                     missing.add(c)
         w = '%s:1 <data>' % rel
         rep.check(not bad, R, w, cfg + ':well-formed', 'every category string reachable from %s is well formed' % cfg, 'ill-formed category strings: %s' % bad[:5])
+        if only_well_formed:
+            continue
         dups = sorted({t for t in targets if t is not None and targets.count(t) > 1}) if len(set(targets)) != len(targets) else []
         rep.check(not dups, R, w, cfg + ':targets-unique', 'the %d target categories of %s are pairwise different values' % (len(targets), cfg),
                   'target categories listed twice (depccg._parsing.run rejects duplicates): %s' % dups[:5])
